@@ -163,6 +163,11 @@ func findingRun(f *Finding, known map[string]KnownFinding) replayRun {
 }
 
 func matchExpect(expect, got string, timedOut bool) bool {
+	if strings.HasPrefix(expect, "any-failure") {
+		// schedule / map-order dependent finding: the native run cannot be forced onto the schedule; any failure of
+		// the harness (assertion, panic, deadlock, leak) observed while repeating the real call counts
+		return timedOut || (got != "ok" && got != "" && !strings.HasPrefix(got, "no result") && !strings.HasPrefix(got, "assume-violated") && !strings.HasPrefix(got, "input-mismatch")) || strings.Contains(got, "panic:") || strings.Contains(got, "fatal error")
+	}
 	switch expect {
 	case "timeout":
 		return timedOut
@@ -189,7 +194,8 @@ func replayFindings(prog *Program, cfg *CheckCfg, pkgDir string, fl []*Finding, 
 		for i, f := range batch {
 			runs[i] = findingRun(f, known)
 			if f.orderDependent {
-				runs[i].Repeat = 2000
+				runs[i].Repeat = 300
+				runs[i].Expect = "any-failure (schedule-dependent): " + runs[i].Expect
 			}
 		}
 		res, text, err := runNative(cfg.Packages, pkgDir, runs, 240*time.Second)
@@ -216,7 +222,8 @@ func replayFindings(prog *Program, cfg *CheckCfg, pkgDir string, fl []*Finding, 
 	for _, f := range single {
 		run := findingRun(f, known)
 		if f.orderDependent {
-			run.Repeat = 2000
+			run.Repeat = 300
+			run.Expect = "any-failure (schedule-dependent): " + run.Expect
 		}
 		res, text, err := runNative(cfg.Packages, pkgDir, []replayRun{run}, 60*time.Second)
 		if err != nil {
@@ -228,6 +235,8 @@ func replayFindings(prog *Program, cfg *CheckCfg, pkgDir string, fl []*Finding, 
 			got = "no result: " + tail(strings.TrimSpace(text), 300)
 			if timedOut {
 				got = "timeout (test timed out / deadlock)"
+			} else if i := strings.Index(text, "panic:"); i >= 0 {
+				got = strings.SplitN(text[i:], "\n", 2)[0]
 			}
 		}
 		f.ReplayOut = got
@@ -265,6 +274,10 @@ func writeReplayFile(prop string, f *Finding, specs []harnessSpec, tier int) str
 		pkgs = c.Packages
 	}
 	run := findingRun(f, loadKnown())
+	if f.orderDependent {
+		run.Repeat = 300
+		run.Expect = "any-failure (schedule-dependent): " + run.Expect
+	}
 	run.Property = prop
 	run.PkgDir = pkgDir
 	run.Packages = pkgs
